@@ -372,7 +372,7 @@ class DiffXReader(object):
                 if not self._HEADER_OPTION_KEY_RE.fullmatch(option_key):
                     raise DiffXParseError(
                         'Header option key "%s" contains invalid characters'
-                        % option_key.decode('ascii'),
+                        % option_key.decode('ascii', 'replace'),
                         linenum=linenum,
                         column=header.index(option_pair))
 
@@ -381,8 +381,8 @@ class DiffXReader(object):
                         'Header option value "%(value)s" for key "%(key)s" '
                         'contains invalid characters'
                         % {
-                            'key': option_key.decode('ascii'),
-                            'value': option_value.decode('ascii'),
+                            'key': option_key.decode('ascii', 'replace'),
+                            'value': option_value.decode('ascii', 'replace'),
                         },
                         linenum=linenum,
                         column=header.index(option_pair) + len(option_key) + 1)
